@@ -160,7 +160,12 @@ var advSegs = []string{".", "..", "...", "a", "x", " ", "\t", ".. ", " ..", "", 
 func advImport(t *tape.Tape, l *layout.Layout) (imp, class string) {
 	secretAbs := l.Base + "/outside/secret"
 	var s string
-	switch t.Draw(8) {
+	switch t.Draw(10) {
+	case 8:
+		// a sibling directory whose name begins like the importing script's directory
+		s, class = " ../"+path.Base(l.Mains[0].Dir())+"-secret/x", "ws-sibling-prefix"
+	case 9:
+		s, class = " ../"+path.Base(l.Top)+"-secret/x", "ws-sibling-prefix"
 	case 0:
 		s, class = " "+secretAbs, "ws-abs"
 	case 1:
@@ -286,9 +291,13 @@ func runDisk(c *run.Ctx) {
 	if r.err != nil {
 		text += r.err.Error()
 	}
-	if strings.Contains(text, "SECRET-MARKER") {
-		c.Violate("confined", "C16/secret-leaked/"+kind, "a file outside the module root reached the result: %.300s (main `%s`)", text, main.Content)
-		return
+	for sp, content := range l.Secrets {
+		// a planted file only counts as a secret if it lies outside THIS script's root (a sibling of the
+		// main file's directory is inside the module root when the main file sits in a sub-directory)
+		if !under(sp, root) && strings.Contains(text, strings.Trim(content, `"`)) {
+			c.Violate("confined", "C16/secret-leaked/"+kind, "%s lies outside the importing script's root %s, yet its content reached the result: %.300s (main `%s`)", sp, root, text, main.Content)
+			return
+		}
 	}
 	if adversarial {
 		if r.panicMsg != "" {
@@ -417,8 +426,17 @@ func runCyclic(c *run.Ctx) {
 		fs.Put(top+"/"+name+".arrai", content)
 		desc = append(desc, name+".arrai: "+content)
 	}
-	c.Logf("files %v", desc)
 	mainPath := top + "/a.arrai"
+	if t.Bool(1, 2) {
+		// an entry file outside the cycle: every file of the cycle is then reached as an import, possibly
+		// by a spelling different from the one that closes the cycle
+		content := fmt.Sprintf("(tag: \"entry\", next: //%s)", spell(0))
+		fs.Put(top+"/entry.arrai", content)
+		desc = append(desc, "entry.arrai: "+content)
+		mainPath = top + "/entry.arrai"
+		c.Probe("cycle-entered-through-an-import")
+	}
+	c.Logf("files %v", desc)
 	var r evalResult
 	finished := false
 	func() {
